@@ -513,6 +513,9 @@ func (c *Ctx) Concurrent(name string, g, n int, r *gen.Rand, f func(q *gen.Rand)
 	seeds := make([]uint64, g)
 	for i := range seeds {
 		seeds[i] = r.Uint64()
+		if i%4 == 3 {
+			seeds[i] = seeds[i-1] // two of every four goroutines ask exactly the same questions at the same time
+		}
 	}
 	var mu sync.Mutex
 	var bad []string
@@ -537,7 +540,7 @@ func (c *Ctx) Concurrent(name string, g, n int, r *gen.Rand, f func(q *gen.Rand)
 					mu.Unlock()
 				}
 			}
-		}(gen.New(seeds[i], uint64(i), 0xc0c0))
+		}(gen.New(seeds[i], 0xc0c0))
 	}
 	wg.Wait()
 	c.Eval(g * n)
